@@ -25,7 +25,7 @@ EXPLANATION = (
     "NUMERICS['atol']). (5) The two direction-increment implementations are both (wrap(t - t_prev) + wrap(t_next - t))/2 "
     "with period 2*pi. (6, thorough tier too) algebraic covariance of the closed forms: rotating the input moments by "
     "phi multiplies lambda1+i*lambda2 by e^{i phi} and lambda3+i*lambda4 by e^{2 i phi} in initial_value, and mirrors flip "
-    "the sine components - polynomial identities decided exactly with sympy. Not decided: fidelity to 0.01, Newton~scipy "
+    "the sine components - polynomial identities decided exactly with sympy. R06.7: module-level solver defaults are never written in place. Not decided: fidelity to 0.01, Newton~scipy "
     "agreement, the discretisation bound, equivariance of the iterative variants."
 )
 
